@@ -30,7 +30,7 @@ type FCCase struct {
 	Callback bool `json:"callback,omitempty"`
 }
 
-const c14Rule = "operations Open(name), Close(i-th lent handle), Remove(name), Clear, SetCacheSize(n) on filecache.FileCache with initial capacity 0..3; every Open is closed exactly once by the generator (the documented contract). " +
+const c14Rule = "operations Open(name), Close(i-th lent handle), Remove(name), Clear, SetCacheSize(n) on filecache.FileCache with initial capacity 0..3, over file names of which two are not in their cleaned spelling (doubled separator, ./ component); every Open is closed exactly once by the generator (the documented contract). " +
 	"Exhaustive part: every sequence over 2 names, capacities/resizes 0..2 up to depth 5 (quick) / 6 (thorough); random part: rapid sequences up to 60 calls over 3 names and capacities 0..3; concurrent part: goroutines opening/using/closing handles while another removes, clears and resizes; random and concurrent parts with and without an eviction callback (SetOnEvicted) installed. " +
 	"oracle after EVERY call: every lent handle still answers Stat (not closed); Close of a lent handle returns nil; open descriptors on the test files (/proc/self/fd) <= capacity + distinct lent handles; at the end, after releasing everything and Clear, no descriptor remains. " +
 	"non-trivial = an eviction/removal/clear/resize while >=1 handle is lent, after which the same name is opened again; distinct = distinct call sequence"
@@ -46,6 +46,15 @@ func newFCEnv() *fcEnv {
 		p := filepath.Join(e.dir, n)
 		if err := os.WriteFile(p, []byte(n), 0o644); err != nil {
 			panic(infraError{err})
+		}
+		// The cache is handed whatever spelling its user builds (the store
+		// appends ".N" to the path it was given): the second and third name
+		// are valid but not in their cleaned form.
+		switch n {
+		case "b":
+			p = e.dir + "//" + n
+		case "c":
+			p = e.dir + "/./" + n
 		}
 		e.names = append(e.names, p)
 	}
